@@ -2,7 +2,7 @@
 import ast
 
 from ..index import u, call_name, call_attr, walk_local, base_name
-from .. import flow
+from .. import flow, interp
 from ..fold import try_fold
 from ..util import stmts_with_env, calls_with_env, assignments_to, single_def, kwarg, param_names, is_log_call, log_type, loops_around
 from .common import method, unconditional_in
@@ -366,11 +366,19 @@ def run(ck):
     ck.ob('MPT-mod-groups', mod.loc(mm), ok, 'every placement of every selected modification mapping on the molecule is returned (no early exit, nothing filtered)', key='MPT-mod-groups|all-placements')
     cv = mod.func('cover')
     ck.analysed(mod, cv)
-    rec = [c for c in walk_local(cv) if isinstance(c, ast.Call) and call_name(c) == 'cover']
-    src = u(cv)
-    ok = len(rec) == 1 and [u(a) for a in rec[0].args] == ['left_to_cover', 'options[idx:]'] and 'if all((item in to_cover for item in option)):' in src and \
-        'left_to_cover = to_cover.copy()' in src and 'left_to_cover.remove(item)' in src and 'return [option] + found' in src and \
-        isinstance(cv.body[-1], ast.Return) and u(cv.body[-1].value) == 'None' and 'if not to_cover:\n    return []' in src.replace('\n        ', '\n    ')
+    rec = [(c, st_, cond_, e_) for c, st_, cond_, e_ in calls_with_env(cv, lambda c: call_name(c) == 'cover')]
+    cl = [l for l in cv.body if isinstance(l, ast.For)]
+    ok = len(rec) == 1 and len(cl) == 1 and [u(a) for a in rec[0][0].args] == ['left_to_cover', 'options[idx:]'] and u(cl[0].iter) == 'enumerate(options)'
+    if ok:
+        inloop = calls_with_env(cv, lambda c: c is rec[0][0], stmts=cl[0].body)
+        ats = list(flow.atoms_of(inloop[0][2])) if inloop else []
+        ok = len(ats) == 1 and ats[0] == ('truth', 'all((item in to_cover for item in option))') and flow.equivalent(inloop[0][2], ('atom', ats[0]))[0]
+        src = u(cl[0])
+        rets = stmts_with_env(cv, lambda s_: isinstance(s_, ast.Return), stmts=cl[0].body)
+        ok = ok and 'left_to_cover = to_cover.copy()' in src and 'left_to_cover.remove(item)' in src and len(rets) == 1 and u(rets[0][0].value) == '[option] + found' and \
+            isinstance(cv.body[-1], ast.Return) and u(cv.body[-1].value) == 'None'
+        first = [s_ for s_ in cv.body if not (isinstance(s_, ast.Expr) and isinstance(s_.value, ast.Constant)) and not interp._is_log_stmt(s_)][0]
+        ok = ok and isinstance(first, ast.If) and u(first.test) == 'not to_cover' and isinstance(first.body[0], ast.Return) and u(first.body[0].value) == '[]'
     ck.ob('MPT-mod-groups', mod.loc(cv), ok, 'cover() is an exact cover: an option qualifies only when all its items are still to be covered, its items are removed from a copy, '
           'the rest is covered recursively, and failure is None', key='MPT-mod-groups|exact-cover')
     shared.truthy_zero(ck, [DM, 'vermouth/map_parser.py'])
